@@ -15,13 +15,20 @@ RULE = ("operation histories (quick 1-12, thorough 1-40 steps) on 13 labelled ma
         "and every cell a pure function of the ids); operations select/delete/insert/adjoin/concat/append/remove/incorp/reorder/sort/"
         "lexsort/group/ungroup along every labelled axis in axis-specific and axis-generic, mutating and non-mutating forms, with int/"
         "slice/list/ndarray/bool-mask/negative index arguments, matrix or raw-array+label operands; label regimes unique/duplicated/"
-        "optional-absent; shapes down to 1x1.  Non-trivial: a history with >= 1 executed step; distinct = digest of class+regime+history.")
+        "optional-absent; shapes down to 1x1.  In-place operations run on the live object itself; the (up to two) matrices the live "
+        "object was last derived from by non-mutating operations stay alive and are re-judged after every later step (shared label "
+        "arrays).  ~6% of the steps are 'rejects' (index past the end, block of incompatible shape) that only feed C03.atomic.  "
+        "Non-trivial: a history with >= 1 executed step; distinct = digest of class+regime+history.")
 ASSUME = ["numpy.take/delete/insert index semantics (trusted) define which rows an index argument denotes",
           "square-taxa classes: insert/adjoin/concat/append/incorp along the taxa axes are not generated (cells between entities of "
           "different source matrices are undefined); all other operations are",
           "sorting with default keys is only required to yield a permutation of the records (plus non-decreasing group labels); custom "
           "keys must come out in numpy.lexsort order",
-          "DenseBreedingValueMatrix cells are compared through unscale() (see C15 for scaling itself)"]
+          "DenseBreedingValueMatrix cells are compared through unscale() (see C15 for scaling itself); its finding keys carry the "
+          "class name because location/scale are state the inherited implementations do not know",
+          "a rejected (raising) in-place call must leave the full observable state unchanged; rejects are limited to arguments numpy "
+          "itself refuses before anything is written (no sort with malformed keys: the library drops the group cache first, which "
+          "leaves a valid ungrouped matrix and is not judged)"]
 
 SPECS = {
     "DenseTaxaMatrix": ("pybrops.core.mat.DenseTaxaMatrix", ("taxa", "pad"), "float"),
@@ -320,6 +327,8 @@ def step_(ctx, g, name, obj, ids, regime, nxt, hist, coords, sibs):
     def rawkw(o):
         return {f: getattr(o, f) for f in regime.labels(axis, [0]).keys()}
 
+    if g.random() < 0.06:
+        return reject_step(ctx, g, name, cls, obj, ids, regime, axis, axmap[axis], other, rawkw, hist, coords, icls, detail)
     operands = []
     variants = []   # (tag, method name for defining-class lookup, mutating, fn(receiver_copy, operand_copies))
     new = None; form = ""
@@ -500,6 +509,50 @@ def step_(ctx, g, name, obj, ids, regime, nxt, hist, coords, sibs):
         sibs.append((ref[5], {a: list(v) for a, v in ids.items()}, len(hist) - 1))
         del sibs[:-2]
     return res, ids2, None
+
+
+def reject_step(ctx, g, name, cls, obj, ids, regime, axis, axs, other, rawkw, hist, coords, icls, detail):
+    """Small 'rejects' class (DESIGN 2.1): an in-place operation is given an argument numpy itself rejects (index out of
+    range, block of incompatible shape).  It must raise; whether it does is only counted.  What is judged is that the
+    failed call did not half-apply: the full observable state of the receiver is what it was (C03.atomic)."""
+    S = "_" + axis
+    ax = axs[0]
+    n = len(ids[axis])
+    kinds = ["remove", "reorder"] + ([] if len(axs) > 1 else ["incorp", "append"])
+    kind = str(g.choice(kinds))
+    calls = []
+    if kind == "remove":
+        arg = n + int(g.integers(0, 3)); form = "index past the end"
+        calls = [("remove" + S, lambda o: getattr(o, "remove" + S)(arg)), ("remove", lambda o: o.remove(arg, axis=ax))]
+    elif kind == "reorder":
+        perm = [int(x) for x in g.permutation(n)]; perm[int(g.integers(n))] = n + int(g.integers(0, 3)); form = "index past the end"
+        calls = [("reorder" + S, lambda o: getattr(o, "reorder" + S)(perm)), ("reorder", lambda o: o.reorder(perm, axis=ax))]
+    elif kind == "incorp":
+        oth, _ = other(1); pos = n + 1 + int(g.integers(0, 3)); form = "position past the end"
+        calls = [("incorp" + S, lambda o: getattr(o, "incorp" + S)(pos, copy.deepcopy(oth))), ("incorp", lambda o: o.incorp(pos, copy.deepcopy(oth), axis=ax))]
+    else:
+        oth, _ = other(1); shp = list(numpy.asarray(oth.mat).shape); k = [i for i in range(len(shp)) if i != ax][-1]; shp[k] += 1
+        vals = numpy.zeros(shp, dtype=numpy.asarray(oth.mat).dtype); kw = rawkw(oth); form = "block of incompatible shape"
+        calls = [("append" + S, lambda o: getattr(o, "append" + S)(vals, **kw)), ("append", lambda o: o.append(vals, axis=ax, **kw))]
+    hist.append("reject:%s[%s](%s)" % (kind, axis, form))
+    before = observe(name, obj, regime)
+    for tag, fn in calls:
+        if not hasattr(cls, tag):
+            continue
+        o = copy.deepcopy(obj)
+        try:
+            fn(o)
+        except Exception as e:  # noqa: BLE001
+            ctx.raised("%s.reject:%s[%s]" % (name, kind, axis), e)
+            d = diff_state(before, observe(name, o, regime))
+            site = site_of(name, cls, tag)
+            ctx.check("C03.atomic", not d, site, "a raising in-place operation leaves the object unchanged", icls + "/rejected argument",
+                      what="%s raised %s on %s and left fields %s modified" % (site, type(e).__name__, form, d),
+                      witness={"class": name, "regime": detail, "history": list(hist), "changed": d}, coords=coords)
+        else:
+            ctx.sumnote("rejects that did not raise (not judged): %s[%s] %s" % (kind, axis, form))
+    hist[-1] += " -> raised"
+    return obj, ids, None
 
 
 def records(name, obj, regime, axis):
@@ -697,9 +750,9 @@ def one_history(ctx, c):
 
 
 def run_shard(ctx):
-    for c in ctx.case_ids(3600, 13 * 16 * 2500):
+    for c in ctx.case_ids(7800, 13 * 16 * 1500):
         one_history(ctx, c)
-    for c in ctx.case_ids(600, 30000):
+    for c in ctx.case_ids(1000, 30000):
         case_genotyping(ctx, c)
 
 
